@@ -78,6 +78,13 @@ KANI_UNITS = {
     },
 }
 
+KANI_UNITS["vk_merge"] = {
+    "mode": "dep", "crate": "contracts/kani/vk_merge", "props": ["C15"],
+    "gen": [("src/extracted.rs.in", "src/extracted.rs")],
+    "what": "MergeSource::poll_next / TaggedSource::poll_next extracted verbatim; one-poll contract against havoc sources",
+    "instantiation": "n in {1,2,3,4} sources, every cursor, every answer pattern; loop bound = n => complete per n",
+}
+
 # property -> list of (engine, unit, harness filters or None, tiers)
 PROPS = {
     "C01": [("verus", "lat_ord"), ("verus", "lat_wrap"), ("verus", "lat_pair"), ("verus", "lat_dom"),
@@ -95,6 +102,8 @@ PROPS["C09"] = [
     ("kani", "vk_lat", ["alg::"], ("thorough",)),
 ]
 
+PROPS["C15"] = [("kani", "vk_merge", ["merge_", "tagged_"], ("quick", "thorough"))]
+
 LEVEL = {
-    "C01": "other", "C02": "other", "C03": "other", "C04": "other", "C09": "other",
+    "C01": "other", "C02": "other", "C03": "other", "C04": "other", "C09": "other", "C15": "other",
 }
